@@ -152,6 +152,7 @@ pub fn generate(tier: &str, seed: u64) -> Vec<String> {
         let mut model: Vec<String> = vec![];
         let mut modelled = dt.es.is_some();
         let mut bit_range: Option<(u64, u64)> = None;
+        let mut signed_range = false;
         // array -> array
         let mut perm: Vec<usize> = (0..rank).collect();
         if rng.chance(1, 2) {
@@ -182,6 +183,12 @@ pub fn generate(tier: &str, seed: u64) -> Vec<String> {
                         let last = rng.range(first, bits - 1);
                         if rng.chance(2, 3) { cfgs.push(format!("\"first_bit\":{}", first)); cfgs.push(format!("\"last_bit\":{}", last)); bit_range = Some((first, last)); }
                         else { cfgs.push(format!("\"last_bit\":{}", last)); bit_range = Some((0, last)); }
+                    } else if dt.name.starts_with("int") && rng.chance(1, 2) {
+                        // signed types: the low `last+1` bits are kept and the decoder SIGN-EXTENDS from bit `last`; data are the
+                        // two's-complement values that fit (negative ones included), so the codec is lossless on them
+                        let bits = (es * 8) as u64;
+                        let last = rng.range(1, bits - 1);
+                        cfgs.push(format!("\"last_bit\":{}", last)); bit_range = Some((0, last)); signed_range = true;
                     }
                     json.push(if cfgs.is_empty() { "{\"name\":\"packbits\"}".to_string() } else { format!("{{\"name\":\"packbits\",\"configuration\":{{{}}}}}", cfgs.join(",")) });
                     // component width / sign extension of the data type, bit range, padding mode: modelled byte for byte
@@ -245,6 +252,8 @@ pub fn generate(tier: &str, seed: u64) -> Vec<String> {
                 let width = last - first + 1;
                 let mask = if width == 64 { u64::MAX } else { ((1u64 << width) - 1) << first };
                 v &= mask;
+                // (signed) sign-extend from bit `last` over the element's width
+                if signed_range && last < 63 && (v >> last) & 1 == 1 { v |= !0u64 << (last + 1); }
                 for (i, b) in e.iter_mut().enumerate() { *b = (v >> (8 * i)) as u8; }
             }
         }
